@@ -346,3 +346,64 @@ func resultFields(v ssa.Value) (start, end, score ssa.Value) {
 	}
 	return
 }
+
+// c03r6: Init(scheme) configures the scorer by assigning package-level inputs. A scheme is a complete
+// configuration only if every input that SOME scheme assigns is assigned by EVERY successful path through
+// Init; otherwise what a scheme means depends on which scheme was initialised before it (D23: "path" set
+// delimiterChars and initialCharClass, "default" and "history" left them alone, so default -> path ->
+// default scored ',' as an ordinary character and the first character of a line with the delimiter bonus).
+func c03r6(c *Ctx, r *Report) {
+	l := c.L
+	r.rule("C03-R6", "A (must-pass-through: complete configuration)", "P1",
+		"in algo.Init, every package-level variable of package algo that is stored on some path is stored on every path from the entry to a return of true",
+		"the score of a (line, term) pair under a scheme depends on the scheme initialised before it: a second Init in one process (library use, tests, a re-launched Run) inherits the delimiter set and the initial character class of the previous scheme")
+	init := l.Fn("algo", "Init")
+	if init == nil {
+		r.unest("anchors", token.NoPos, nil, "anchor algo.Init", "cannot resolve")
+		return
+	}
+	stores := map[*ssa.Global]bool{}
+	eachInstr(init, func(in ssa.Instruction) {
+		if st, ok := in.(*ssa.Store); ok {
+			if g, ok := st.Addr.(*ssa.Global); ok && g.Pkg == l.pkg("algo") {
+				stores[g] = true
+			}
+		}
+	})
+	var gs []*ssa.Global
+	for g := range stores {
+		gs = append(gs, g)
+	}
+	sort.Slice(gs, func(i, j int) bool { return gs[i].Name() < gs[j].Name() })
+	isOK := func(in ssa.Instruction) bool {
+		ret, ok := in.(*ssa.Return)
+		if !ok || len(ret.Results) != 1 {
+			return false
+		}
+		if k, ok := ret.Results[0].(*ssa.Const); ok && k.Value != nil && k.Value.String() == "false" {
+			return false
+		}
+		return true
+	}
+	entry := init.Blocks[0].Instrs[0]
+	for _, g := range gs {
+		g := g
+		isStore := func(in ssa.Instruction) bool {
+			st, ok := in.(*ssa.Store)
+			return ok && st.Addr == ssa.Value(g)
+		}
+		var esc ssa.Instruction
+		if isStore(entry) {
+			esc = nil
+		} else {
+			esc = pathAvoiding(entry, isOK, isStore, nil)
+		}
+		where := ""
+		if esc != nil {
+			where = l.pos(esc.Pos())
+		}
+		r.check(esc == nil, fmt.Sprintf("%s:%s assigned on every successful path", relName(init), g.Name()), init.Pos(), init,
+			"every path to a successful return stores it", fmt.Sprintf("a path reaches the successful return at %s without assigning %s: that scheme inherits the value of the scheme initialised before", where, g.Name()))
+	}
+	r.floor("scoring inputs assigned by Init", len(gs), 4)
+}
